@@ -162,9 +162,20 @@ def run_table(case, ctx):
     keyvals = [k["values"] for k in case["keys"]]
     in_rows = R.frozen_rows(R.cells(t))
     ctx.ev()
+    by_before = list(by) if isinstance(by, list) else None
+    rev_before = list(rev) if isinstance(rev, list) else None
     out = t.sort_by(by, reverse=rev, na_last=na_last)
     if R.snapshot_table(t) != snap:
         return ctx.fail("table/input-modified", "sort_by changed its input")
+    if (by_before is not None and (len(by) != len(by_before) or any(x is not y for x, y in zip(by, by_before)))) or \
+            (rev_before is not None and list(rev) != rev_before):
+        return ctx.fail("table/argument-list-modified", f"the by / reverse list the caller passed was rewritten: {by_before} -> {by}")
+    if by_before is not None and all(isinstance(x, str) for x in by_before):
+        # the same list of names used again on the sorted table: names are looked up in the table they are given to
+        ctx.ev()
+        same_again = out.sort_by(by, reverse=rev, na_last=na_last)
+        if R.frozen_rows(R.cells(same_again)) != R.frozen_rows(R.cells(out)):
+            return ctx.fail("table/not-idempotent/same-argument-objects", f"sort_by(by) twice with the same list object {by_before}")
     if list(out.column_names()) != [c[0] for c in cols]:
         return ctx.fail("table/names", f"{out.column_names()} vs {[c[0] for c in cols]}")
     out_rows = R.cells(out)
